@@ -25,6 +25,17 @@ theorem cap64 : Cap64 Gen.intCap := by
   rw [cap_eq] at hc; cases hc
   exact cap_admits_64
 
+/-- **constants of the source the model hard-codes**, re-read by the translator on every run and compared
+    here in the kernel: the three literal patterns, the prefix maxima `2^i - 1`, the static table length, the
+    default sizes of fresh instances, and `table_entry_size` (= 32 + |name| + |value|) on a grid of samples -/
+theorem consts_ok :
+    Gen.indexNone = 0 ∧ Gen.indexNever = 0x10 ∧ Gen.indexIncremental = 0x40 ∧
+    Gen.prefixMax = (List.range 9).map (fun i => 2 ^ i - 1) ∧
+    Gen.staticTableLength = Gen.staticTable.length ∧
+    Gen.defaultAllowed = Gen.defaultSize ∧ Gen.defaultEncSize = Gen.defaultSize ∧
+    Gen.entrySizeSamples.all (fun t => t.2.2 == 32 + t.1 + t.2.1) = true ∧ Gen.entrySizeSamples.length = 20 := by
+  decide
+
 /-! ### reachable Decoder states -/
 /-- what an application can do to a `Decoder` -/
 inductive DecOp
